@@ -2,12 +2,14 @@
 
 pub mod build;
 pub mod common;
+pub mod history;
 pub mod misc;
 pub mod parse;
 pub mod parse2;
 pub mod sdes;
 pub mod roundtrip;
 pub mod sizes;
+pub mod third;
 
 use crate::run::{Check, Tier};
 
@@ -28,6 +30,8 @@ pub fn check_for(id: &str, tier: Tier) -> Option<Check> {
         "C18" => Some(parse::c18(tier)),
         "C13" => Some(misc::c13(tier)),
         "C15" => Some(misc::c15(tier)),
+        "C19" => Some(third::c19(tier)),
+        "C20" => Some(history::c20(tier)),
         "C14" => Some(sizes::c14(tier)),
         "C16" => Some(sizes::c16(tier)),
         "C17" => Some(sizes::c17(tier)),
